@@ -12,7 +12,7 @@ Extraction "model.ml"
      dec_pcmout dec_read dec_run dec_lapout to_dblock
   (* Overlap *) blockin_buf lapout_buf spec_out pkts half
   (* Pcm *) decode_b32 ftoi pack_sample pack_frames read_frames
-  (* VFile *) open_file read_float read_fuel raw_seek pcm_seek_page pcm_seek raw_tell pcm_total set_hs halfrate seek_hyps seek_hyps_h seek_hyps_e start_hyps
+  (* VFile *) open_file read_float read_fuel raw_seek pcm_seek_page pcm_seek raw_tell pcm_total set_hs halfrate seek_hyps seek_hyps_h seek_hyps_e seek_end_hyps start_hyps
   (* Bitrate *) addblock
   (* EncSetup *) decode_b64 mk_template setup_templates s_init sstep nominal_eff
   (* Setup/Codebook/PacketDec *) h_init headerin synthesis_init synthesis encode_b32 setup_packet ident_packet.
